@@ -333,6 +333,14 @@ class Ctx:
         v = s._vars.get(m)
         if v is None:
             k = len(s._vars)
+            grid = s.extra.get('grid')
+            if grid and len(m) == 1 and m[0][1] == 1 and m[0][0] in grid:
+                # unknown on a decimal grid: value = step * integer (mixed integer / real arithmetic)
+                g = grid[m[0][0]]
+                step = z3.RealVal(F(1, 10 ** g) if g >= 0 else F(10 ** (-g)))
+                v = (step * z3.ToReal(z3.Int(f'm{k}n')), z3.RealVal(0))
+                s._vars[m] = v
+                return v
             v = (z3.Real(f'm{k}r'), z3.Real(f'm{k}i'))
             s._vars[m] = v
             at = s.atoms
@@ -369,7 +377,8 @@ class Ctx:
 
     def _solver(s):
         if s._sol is None:
-            s._sol = z3.SolverFor('QF_LRA')
+            s._sol = z3.Solver() if s.extra.get('decimal_model') else z3.SolverFor('QF_LRA')
+            if s.extra.get('decimal_model'): s._sol.set('timeout', 20000)
         if s._pending:
             s._sol.add(*s._pending); s._pending = []
         while s._nE < len(s.E):
@@ -515,6 +524,14 @@ class Ctx:
     def decide_pos(s, p, strict=True):
         """p > 0 (strict) or p >= 0 on this path? forks when undetermined."""
         p = s.reduce(p)
+        ck = (p.key(), strict)
+        memo = s.extra.setdefault('pos_memo', {})
+        if ck in memo: return memo[ck]       # facts only grow along a path: an earlier verdict stays valid
+        r = s._decide_pos(p, strict)
+        memo[ck] = r
+        return r
+
+    def _decide_pos(s, p, strict):
         if not s.is_real_poly(p):
             raise Inconclusive('order test on a value not known to be real: ' + p.show(s.atoms))
         # clear negative powers of positive atoms (multiplying by a positive monomial keeps the sign and keeps the test linear)
@@ -538,13 +555,79 @@ class Ctx:
         no = s._check(sol) == z3.unsat
         sol.pop()
         if no: return False
+        # a single grid atom (value known to be a multiple of a step) against a constant on the same grid: sharpen to a closed test
+        g = s._grid_form(p)
+        if g is not None:
+            sign, step = g
+            # p = sign*(r - c) with r, c on the grid:  p > 0  <=>  p >= step ;  p >= 0  <=>  p > -step
+            sharp_yes = p - Poly.const(G(step)) if strict else p
+            r2, _ = s._lin(sharp_yes)
+            sol = s._solver()
+            sol.push(); sol.add(r2 < 0)
+            if s._check(sol) == z3.unsat:
+                sol.pop(); return True
+            sol.pop()
+            sharp_no = (-p) if strict else (-p - Poly.const(G(step)))
+            r3, _ = s._lin(sharp_no)
+            sol = s._solver()
+            sol.push(); sol.add(r3 < 0)
+            if s._check(sol) == z3.unsat:
+                sol.pop(); return False
+            sol.pop()
         d = s._decide(('pos?' if strict else 'nonneg?', p.show(s.atoms)))
         if d:
             s.facts.append((p, strict))
+            if g is not None and strict: s.facts.append((p - Poly.const(G(g[1])), False))
         else:
             s.facts.append((-p, not strict))
+            if g is not None and not strict: s.facts.append((-p - Poly.const(G(g[1])), False))
         if s.inconsistent(): raise PathAbort()
         return d
+
+    def _grid_form(s, p):
+        """p = a*r + c with r a grid atom (multiple of 10^-g) and c/a on that grid -> (sign, |a|*step)"""
+        grid = s.extra.get('grid')
+        if not grid: return None
+        terms = [(m, c) for m, c in p.t.items() if m != ()]
+        if len(terms) != 1: return None
+        (m, c), = terms
+        if len(m) != 1 or m[0][1] != 1 or m[0][0] not in grid or c.im != 0: return None
+        step = F(1, 10 ** grid[m[0][0]]) if grid[m[0][0]] >= 0 else F(10 ** (-grid[m[0][0]]))
+        c0 = p.const_value()
+        if c0.im != 0: return None
+        q = (c0.re / c.re) / step
+        if q.denominator != 1: return None
+        return (1 if c.re > 0 else -1), abs(c.re) * step
+
+    def entails_nonneg(s, p, strict=False):
+        """is p >= 0 (or > 0) entailed on this path? (no forking)"""
+        p = s.reduce(p)
+        if s.subst:
+            q = s.apply_subst(p)
+            if q is not None: p = q
+        if not s.is_real_poly(p): return False
+        if p.is_const():
+            c = p.const_value().re
+            return c > 0 if strict else c >= 0
+        g = s._grid_form(p)
+        if g is not None and not strict:
+            # value on a grid: p >= 0 follows from p > -step
+            p = p + Poly.const(G(g[1])); strict = True
+        r, _ = s._lin(p)
+        sol = s._solver()
+        sol.push(); sol.add(r <= 0 if strict else r < 0); s._frame_facts(sol)
+        ok = s._check(sol) == z3.unsat
+        sol.pop()
+        return ok
+
+    def grid_atom(s, name, decimals, lo=None, hi=None):
+        """fresh unknown real atom known to be a multiple of 10^-decimals, with optional bounds lo <= r <= hi (polys)"""
+        a = s.atoms.new(name, real=True, unknown=True)
+        s.extra.setdefault('grid', {})[a] = decimals
+        r = Poly.atom(a)
+        if lo is not None: s.facts.append((r - lo, False))
+        if hi is not None: s.facts.append((hi - r, False))
+        return a
 
     # ---- label order
     def _reach(s, a, b):
@@ -753,7 +836,10 @@ class SC:
             if a.im == 0 and b.im == 0 and b.re != 0:
                 return SC.lift(a.re % b.re)
         h = CTX.extra.get('mod_stub')
-        if h is None: raise Inconclusive('% on a symbolic value (needs a harness stub)')
+        if h is None:
+            if isinstance(o, int) and o == 1 and CTX.is_real_poly(s.p):
+                return s - sym_floor(s)           # fractional part of a non-negative value
+            raise Inconclusive('% on a symbolic value (needs a harness stub)')
         return h(s, o)
 
     def __complex__(s): raise TypeError('realisation of a symbolic complex value')
@@ -763,6 +849,18 @@ class SC:
 
     def __bool__(s):
         return not CTX.decide_zero(s.p)
+
+    def __format__(s, spec):
+        """formatting a symbolic number yields a placeholder token that the harness' numeral parser maps back to the value"""
+        if spec.startswith('.') and spec.endswith('f') and CTX.extra.get('decimal_model'):
+            from . import decstr
+            return decstr.DecStr(s, int(spec[1:-1]))
+        toks = CTX.extra.setdefault('tokens', [])
+        key = s.p.key()
+        for i, (k, _) in enumerate(toks):
+            if k == key: return f'\x02{i}|{spec}\x03'
+        toks.append((key, s))
+        return f'\x02{len(toks) - 1}|{spec}\x03'
 
     def __repr__(s): return f'SC<{s.p.show(CTX.atoms)}>'
 
@@ -794,12 +892,20 @@ class SAbs:
     """|z| of a symbolic value; supports the comparisons the repository code makes"""
     def __init__(s, z): s.z = z
 
-    def _polar(s): return polar(s.z)[0]
+    def __abs__(s): return s
+
+    def _polar(s):
+        if CTX.is_real_poly(s.z.p): return s._real_abs()
+        return polar(s.z)[0]
     def __mul__(s, o): return s._polar() * o
     __rmul__ = __mul__
     def __add__(s, o): return s._polar() + o
     __radd__ = __add__
+    def __sub__(s, o): return s._polar() - o
+    def __rsub__(s, o): return o - s._polar()
     def __truediv__(s, o): return s._polar() / o
+    def __mod__(s, o): return s._polar() % o
+    def __format__(s, spec): return format(s._polar(), spec)
 
     def _real_abs(s):
         z = s.z
@@ -843,6 +949,50 @@ J = None
 
 def jay():
     return SC(Poly.const(GJ))
+
+
+def on_grid(x, decimals):
+    """is the value known to be a multiple of 10^-decimals? (rational constants and grid atoms with suitable coefficients)"""
+    grid = CTX.extra.get('grid', {})
+    step = F(10) ** (-decimals)
+    for m, c in x.p.t.items():
+        if c.im != 0: return False
+        if m == ():
+            if (c.re / step).denominator != 1: return False
+            continue
+        if len(m) != 1 or m[0][1] != 1 or m[0][0] not in grid: return False
+        astep = F(10) ** (-grid[m[0][0]])
+        if (c.re * astep / step).denominator != 1: return False
+    return True
+
+
+def sym_floor(x):
+    """contract stub: integer-valued unknown f with f <= x < f + 1 (memoised per value)"""
+    C = CTX
+    if on_grid(x, 0): return x
+    memo = C.extra.setdefault('floor', {})
+    key = x.p.key()
+    if key not in memo:
+        a = C.grid_atom(f'floor{len(memo)}', 0)
+        f = SC(Poly.atom(a))
+        C.facts.append(((x - f).p, False)); C.facts.append(((f + 1 - x).p, True))
+        memo[key] = f
+    return memo[key]
+
+
+def sym_round(x, decimals=0):
+    """contract stub for rounding to `decimals` decimals: unknown r on the grid 10^-decimals with |r - x| <= half a step"""
+    C = CTX
+    if on_grid(x, decimals): return x
+    memo = C.extra.setdefault('round', {})
+    key = (x.p.key(), decimals)
+    if key not in memo:
+        a = C.grid_atom(f'round{len(memo)}', decimals)
+        r = SC(Poly.atom(a))
+        half = F(1, 2) * (F(1, 10 ** decimals) if decimals >= 0 else F(10 ** (-decimals)))
+        C.facts.append(((r - x + half).p, False)); C.facts.append(((x - r + half).p, False))
+        memo[key] = r
+    return memo[key]
 
 
 def sym_sqrt(x):
@@ -946,8 +1096,33 @@ def sym_int(x=0, *a):
         if x.p.is_const():
             c = x.p.const_value()
             if c.im == 0: return int(c.re)
+        if CTX.extra.get('decimal_model') and CTX.is_real_poly(x.p):
+            grid = CTX.extra.get('grid', {})
+            if len(x.p.t) == 1:
+                (m, c), = x.p.t.items()
+                if len(m) == 1 and m[0][1] == 1 and m[0][0] in grid and grid[m[0][0]] <= 0 and c.im == 0 and c.re.denominator == 1:
+                    return x                              # already integer valued
+            # truncation towards zero
+            if CTX.decide_pos(x.p, strict=False): return sym_floor(x)
+            return -sym_floor(-x)
         raise TypeError('realisation of a symbolic value')
     return int(x, *a)
+
+
+class XInt(int):
+    """an int whose negative powers of ten and quotients stay exact (10**XInt(-2) == Fraction(1, 100)); used for the precision
+    argument so that the decimal model does not pick up binary float constants"""
+    def __add__(s, o): return XInt(int(s) + int(o)) if isinstance(o, int) else NotImplemented
+    __radd__ = __add__
+    def __sub__(s, o): return XInt(int(s) - int(o)) if isinstance(o, int) else NotImplemented
+    def __rsub__(s, o): return XInt(int(o) - int(s)) if isinstance(o, int) else NotImplemented
+    def __neg__(s): return XInt(-int(s))
+    def __mul__(s, o): return XInt(int(s) * int(o)) if isinstance(o, int) else NotImplemented
+    __rmul__ = __mul__
+    def __truediv__(s, o): return F(int(s), int(o)) if isinstance(o, int) else NotImplemented
+    def __rpow__(s, o, mod=None):
+        if isinstance(o, int): return F(o) ** int(s) if int(s) < 0 else o ** int(s)
+        return NotImplemented
 
 
 # ------------------------------------------------------------------ labels with symbolic order
